@@ -75,6 +75,9 @@ type Options struct {
 	Torn int
 	// MrpPid is what os.Getpid returns inside package core (uniquifiers).
 	MrpPid int
+	// SymlinkParent puts the pipestance below a symlinked directory and
+	// makes FILEW report physical paths.
+	SymlinkParent bool
 	// Inspect runs after the run ended and before the scratch directory is
 	// removed (for oracles that look at the file system).
 	Inspect func(res *Result)
@@ -252,6 +255,11 @@ func Run(p *progen.Program, sched Schedule, opts Options) (res *Result) {
 		return
 	}
 	psdir := filepath.Join(dir, "ps")
+	if opts.SymlinkParent {
+		os.MkdirAll(filepath.Join(dir, "real"), 0o755)
+		os.Symlink("real", filepath.Join(dir, "link"))
+		psdir = filepath.Join(dir, "link", "ps")
+	}
 
 	// install hooks
 	occ := 0
@@ -443,6 +451,14 @@ func Run(p *progen.Program, sched Schedule, opts Options) (res *Result) {
 			res.Written[pth] = int64(len(content))
 		}
 		io.TempPath = filepath.Join(j.MdPath, "tmp")
+		if opts.SymlinkParent {
+			io.RealPath = func(pth string) string {
+				if rp, err := filepath.EvalSymlinks(pth); err == nil {
+					return rp
+				}
+				return pth
+			}
+		}
 		io.CheckFile = func(pth string) {
 			if msg := CheckFileIntact(pth); msg != "" {
 				res.FileProblems = append(res.FileProblems, fmt.Sprintf("job %s (loop iteration %d): %s", j.Key(), h.Iter, msg))
